@@ -15,10 +15,13 @@ for p in props:
         data.pop(p, None)
         continue
     res = runner.run_deductive(mod, p)
-    dis, other = [], []
+    dis, other, hashes = [], [], {}
     for r in res:
         for c in r["clauses"]:
             (dis if c["verdict"] == "discharged" else other).append(c["name"])
-    data[p] = dict(discharged=sorted(dis), not_discharged=sorted(other), finite_unusable=[])
+        for f in r.get("functions", []):
+            if f.get("source_hash"):
+                hashes[f["function"]] = f["source_hash"]
+    data[p] = dict(discharged=sorted(dis), not_discharged=sorted(other), finite_unusable=[], function_hashes=hashes)
     print(p, "discharged clauses:", len(dis), "not discharged:", other)
 json.dump(data, open(path, "w"), indent=1, sort_keys=True)
